@@ -70,6 +70,15 @@ CLAIMS = {
              "histories printed by TLC are replayed with real LineageRunner threads released one statement at a time (pre-emption before "
              "each analyse call and before deregistration) and every recorded history is decided by Trace_Pipeline against the ideal layer.",
         note="trusted: TLC, class-level tap wrappers in the harness process, the projection of a run (exception class, target columns per statement, provider answers through its public API)"),
+    "C01": dict(
+        design="5/C01, 3.2",
+        technique="TLA+ model checking (TLC) of Stmt.tla (program = behaviour; machine vs BaseTables/Target) + every TLC-enumerated program rendered and analysed by the real LineageRunner + TLC trace validation (Trace_Stmt re-walks the program through the spec's actions and decides the observed tables)",
+        text="TLC enumerates every statement of the core grammar up to 7 (thorough 9) grammar events - joins, comma joins, derived tables, CTEs, "
+             "set operations, subqueries in WHERE / select list / HAVING, nesting depth 2, every statement kind incl. noop kinds - proves the "
+             "extractor-shaped machine reports exactly BaseTables/Target on the intended track, and prints each program; each is rendered to "
+             "SQL, analysed by the real code and the observation is decided by Trace_Stmt (ideal first; a rejected observation is a known "
+             "finding only if it equals the deviant track and every fired deviation is listed). Simulated programs reach depth 4.",
+        note="trusted: TLC, sqlfluff as parser, the token renderer harness/render_stmt.py; one spelling per program here (C07/C08/C09 vary spelling, naming, dialect)"),
 }
 
 NOT_YET = "check not built yet in this round; planned as described in DESIGN.md section 5"
